@@ -10,6 +10,7 @@ mod store;
 mod timeunit;
 mod udpcodec;
 mod validator;
+mod wsjson;
 
 fn arg<T: std::str::FromStr>(args: &[String], name: &str, default: T) -> T {
     args.iter()
@@ -43,6 +44,7 @@ fn main() {
     match family {
         "udpstore" => store::run(&mut out, seed, cases, maxops, &replay, false),
         "udpcodec" => udpcodec::run(&mut out, seed, cases, &replay),
+        "wsjson" => wsjson::run(&mut out, seed, cases, &replay),
         "validator" => validator::run(&mut out, seed, cases, &replay),
         "acl" => acl::run(&mut out, seed, cases, &replay),
         "addr" => addr::run(&mut out, seed, cases, &replay),
